@@ -33,7 +33,7 @@ def main():
     ap.add_argument('--src', required=True); ap.add_argument('--out', required=True); ap.add_argument('--tag', required=True)
     ap.add_argument('--root', action='append', default=[]); ap.add_argument('--cut', action='append', default=[])
     ap.add_argument('--enum', action='append', default=[]); ap.add_argument('--transparent', action='append', default=[])
-    ap.add_argument('--inc', action='append', default=[]); ap.add_argument('--struct', action='append', default=[])
+    ap.add_argument('--inc', action='append', default=[]); ap.add_argument('--global', dest='globals_', action='append', default=[]); ap.add_argument('--struct', action='append', default=[])
     ap.add_argument('--no-line', action='store_true')
     a = ap.parse_args()
     os.makedirs(a.out, exist_ok=True)
@@ -48,6 +48,23 @@ def main():
     except g2c.G2CError as e:
         print('EXTRACTION-ABORT: %s' % e, file=sys.stderr)
         sys.exit(2)
+    if a.globals_:
+        # constant tables: link the object into a shared object (relocations resolved) and read the initialised data
+        so = base + '.so'
+        p = subprocess.run(['g++', '-shared', '-o', so, base + '.o'], capture_output=True, text=True)
+        reqf, outf = base + '.greq.json', base + '.gans.json'
+        json.dump({'globals': a.globals_}, open(reqf, 'w'))
+        here = os.path.dirname(os.path.abspath(__file__))
+        p = subprocess.run(['gdb', '-batch', '-nx', '-x', os.path.join(here, 'gdb_globals.py'), so], env=dict(os.environ, G2C_REQ=reqf, G2C_OUT=outf), capture_output=True, text=True)
+        if not os.path.exists(outf):
+            print('EXTRACTION-ABORT: globals oracle failed: ' + p.stderr[-500:], file=sys.stderr); sys.exit(2)
+        ga = json.load(open(outf))
+        if ga['errors']:
+            print('EXTRACTION-ABORT: globals: ' + '; '.join(ga['errors']), file=sys.stderr); sys.exit(2)
+        th += '\n' + '\n'.join(ga['defs']) + '\n'
+        for f in (so, reqf, outf):
+            try: os.remove(f)
+            except OSError: pass
     open(base + '.types.h', 'w').write(th)
     open(base + '.fns.c', 'w').write(fc)
     meta = {'src': a.src, 'compile_cmd': cmd, 'roots': a.root, 'cut': a.cut,
